@@ -425,7 +425,7 @@ def plant(src, marker_index, err_name):
     sub = SUBST_SUB if kind == "SUB" else SUBST_TOP
     new = []
     for l in lines:
-        for k, v in sub.items():
+        for k, v in sorted(sub.items(), key=lambda kv: -len(kv[0])):
             l = l.replace(k, v)
         new.append(" " * ind + l)
     parts = src.split("\n")
